@@ -6,6 +6,7 @@ package simrt
 
 import (
 	"fmt"
+	"math"
 	"reflect"
 	"sort"
 	"sync"
@@ -71,7 +72,9 @@ func MapEntries[K comparable, V any](m map[K]V) []Entry[K, V] {
 		}
 		return es
 	}
-	sort.SliceStable(es, func(i, j int) bool { return lessKey(reflect.ValueOf(es[i].K), reflect.ValueOf(es[j].K)) })
+	sort.SliceStable(es, func(i, j int) bool {
+		return lessKey(reflect.ValueOf(&es[i].K).Elem(), reflect.ValueOf(&es[j].K).Elem())
+	})
 	n := bumpMapCalls()
 	switch st {
 	case OrderReverse:
@@ -111,6 +114,18 @@ func bumpMapCalls() uint64 {
 
 var timeType = reflect.TypeOf(time.Time{})
 
+// floatBits reads the raw bits of a float key (a conversion through float64 may quiet a
+// signalling float32 NaN and make two keys look alike).
+func floatBits(v reflect.Value) uint64 {
+	if !v.CanAddr() {
+		return math.Float64bits(v.Float())
+	}
+	if v.Kind() == reflect.Float32 {
+		return uint64(*(*uint32)(v.Addr().UnsafePointer()))
+	}
+	return *(*uint64)(v.Addr().UnsafePointer())
+}
+
 func lessKey(a, b reflect.Value) bool {
 	switch a.Kind() {
 	case reflect.Bool:
@@ -121,8 +136,11 @@ func lessKey(a, b reflect.Value) bool {
 		return a.Uint() < b.Uint()
 	case reflect.Float32, reflect.Float64:
 		x, y := a.Float(), b.Float()
-		if x != x || y != y { // NaN sorts first, stably
-			return x != x && y == y
+		if x != x || y != y { // NaNs sort first, among themselves by their bit pattern
+			if x != x && y != y {
+				return floatBits(a) < floatBits(b)
+			}
+			return x != x
 		}
 		return x < y
 	case reflect.String:
